@@ -87,10 +87,11 @@ func HandWritten() []*Case {
 		mk("h45", "enum-constants-over-two-files-with-equal-values", "ph45", "type Color int\nconst (\n\tRed Color = iota\n\tGreen\n\tBlue\n)\ntype Paint struct {\n\tC Color\n\tL Level\n}\n", "const defaultColor = Green\nconst fallbackColor Color = Red\ntype Level uint8\nconst (\n\tLow Level = iota\n\tHigh\n)\nconst levelUnset Level = 255\nconst levelDefault = Low\n"+bigPadding()),
 		mk("h58", "outer-field-with-the-go-name-of-a-promoted-field", "ph58", "type Stamps struct {\n\tID int `json:\"revision_id\"`\n\tAt string `json:\"at\"`\n}\ntype Doc struct {\n\tID int `json:\"id\"`\n\tStamps\n\tTitle string\n}\ntype Hidden struct {\n\tID int `json:\"-\"`\n\tStamps\n\tNote string\n}\n", ""),
 		withRoot(mk("h62", "enum-of-the-package-at-the-module-root", "ph62", "type Order struct {\n\tS synth.RootStatus\n\tHistory []synth.RootStatus\n\tByMode map[synth.RootMode]int\n}\n", ""), "type RootStatus int\nconst (\n\tRootOpen RootStatus = iota\n\tRootPaid\n\tRootShipped\n)\ntype RootMode string\nconst (\n\tRootFast RootMode = \"fast\"\n\tRootSlow RootMode = \"slow\"\n)\n"),
+		mk("h63", "embedded-struct-tagged-gomacro-data-ignore-and-used-elsewhere", "ph63", "type Kind int\nconst (\n\tPlain Kind = iota + 1\n\tFancy\n)\ntype Audit struct {\n\tKind Kind\n\tBy string\n\tTags []string\n}\ntype Order struct {\n\tAudit `gomacro-data:\"ignore\"`\n\tN int\n}\ntype Report struct {\n\tA Audit\n\tL []Audit\n}\n", ""),
 		mk("h61", "union-members-of-another-file-through-promoted-methods", "ph61", "type Shape interface{ isShape() }\ntype Drawing struct {\n\tMain Shape\n\tName string\n}\n", "type base struct{ ID int }\nfunc (base) isShape() {}\ntype Circle struct {\n\tbase\n\tR float64\n}\ntype Square struct {\n\t*base\n\tSide float64\n}\ntype Dot struct{ X, Y int }\nfunc (Dot) isShape() {}\n"),
 		mk("h60", "union-marker-method-on-a-pointer-receiver", "ph60", "type Shape interface{ isShape() }\ntype Circle struct{ R int }\nfunc (Circle) isShape() {}\ntype Square struct{ Side int }\nfunc (Square) isShape() {}\n// Canvas satisfies Shape through its pointer only: the value type is no member\ntype Canvas struct{ W, H int }\nfunc (c *Canvas) isShape() {}\ntype Drawing struct {\n\tMain Shape\n\tAll []Canvas\n}\n", ""),
 		withSub(mk("h57", "union-struct-embedding-a-struct-of-a-sub-package", "ph57", "type Shape interface{ isShape() }\ntype Circle struct{ R float64 }\nfunc (Circle) isShape() {}\ntype Drawing struct {\n\tmeta.Info\n\tMain Shape\n\tTitle string\n}\n", ""), "meta", "type Kind int\nconst (\n\tDraft Kind = iota\n\tFinal\n)\ntype Label string\ntype Info struct {\n\tKind Kind\n\tLabels []Label\n\tRev int\n}\n"),
-		withSub(mk("h59", "enum-of-a-sibling-package", "ph59", "type Order struct {\n\tS mdl59.Status\n\tC mdl59.Currency\n}\n", ""), "../mdl59", "type Status int\nconst (\n\tOpen Status = iota\n\tPaid\n\tClosed\n)\ntype Currency string\nconst (\n\tEur Currency = \"EUR\"\n\tUsd Currency = \"USD\"\n)\n"),
+		withSub(mk("h59", "enum-of-a-sibling-package", "ph59", "type Order struct {\n\tS mdl59.Status\n\tC mdl59.Currency\n\tHist map[string]mdl59.Status\n}\n", ""), "../mdl59", "type Status int\nconst (\n\tOpen Status = iota\n\tPaid\n\tClosed\n)\ntype Currency string\nconst (\n\tEur Currency = \"EUR\"\n\tUsd Currency = \"USD\"\n)\n"),
 		withSub(mk("h40", "embedded-non-struct-fields", "ph40", "type Kind int\nconst (\n\tPlain Kind = iota + 1\n\tFancy\n)\ntype Level string\nconst (\n\tLow Level = \"low\"\n\tHigh Level = \"high\"\n)\ntype Tags []string\ntype Shape struct {\n\tKind\n\tLevel\n\tTags\n\tName string\n\tAt geo.Point\n}\n", ""), "geo", "type Geometry interface{ isGeometry() }\ntype Point struct{ X, Y float64 }\nfunc (Point) isGeometry() {}\ntype Line struct{ A, B Point }\nfunc (Line) isGeometry() {}\n"),
 		withSub(mk("h38", "named-basic-first-reached-in-its-own-package", "ph38", "type Link struct {\n\tOwner own.Owner\n\tID own.ID\n}\n", ""), "own", "type ID int64\ntype Owner struct{ ID ID }\n"),
 		withSub(mk("h39", "named-basic-used-by-two-files", "ph39", "type A struct {\n\tK ids.Key\n\tL []ids.Key\n\tM map[ids.Key]ids.Name\n}\n", "type B struct {\n\tK ids.Key\n\tN ids.Name\n}\n"), "ids", "type Key int64\ntype Name string\ntype Holder struct {\n\tK Key\n\tN Name\n}\n"),
